@@ -356,7 +356,9 @@ def nontrivial(c):
 #   ["mbr", k, t]  ["maxdepth", k]  ["numrect", k]  ["areas", k]           queries
 # The objects are never rebuilt between steps: what a later call returns on an object that was already queried, refined
 # or whose cells were flagged in place (possibly through another allocation sharing the Rectangle) is compared with the
-# pure model on the current values.
+# pure model on the current values.  Which allocations share a Rectangle object is not part of C02 / C12: the flags
+# observed after a setfixed step are handed to the model, which only checks that they are a possible outcome (the
+# addressed cell carries the flag; a cell whose flag changed has the geometry of the addressed cell) and goes on from them.
 # =====================================================================================
 HEADER_H = """From FrameModel Require Import Num.QcTac Geometry.Rect Cases.Cmp Alloc.Alloc Alloc.Hist Cases.CmpAlloc.
 Open Scope Qc_scope."""
@@ -465,13 +467,17 @@ def run_hist_impl(case):
         Rectangle.undefine_epsilon()
 
 
+def gfixed(fixed):
+    return glist([glist([f"({gq(x)}, {gq(y)})" for x, y in fl]) for fl in fixed])
+
+
 def ghop(h, st):
     if h[0] == "apply":
         return f"(HApply {gnat(h[1])} {gop(h[2])})"
     if h[0] == "copy":
         return f"(HCopy {gnat(h[1])})"
     if h[0] == "setfixed":
-        return f"(HSetFixed {gnat(h[1])} {gq(st['at'][0])} {gq(st['at'][1])} {gbool(h[3])})"
+        return f"(HSetFixed {gnat(h[1])} {gq(st['at'][0])} {gq(st['at'][1])} {gbool(h[3])} {gfixed(st['fixed'])})"
     if h[0] == "mbr":
         return f"(HMbr {gnat(h[1])} {gq(h[2])})"
     name = {"maxdepth": "HMaxDepth", "numrect": "HNumRect", "areas": "HAreas"}[h[0]]
@@ -482,7 +488,7 @@ def gobs(h, st):
     if h[0] in ("apply", "copy"):
         return f"(ONew {gopt(None if st['new'] is None else gcells(sorted_cells(st['new'])))})"
     if h[0] == "setfixed":
-        return "(OFixed " + glist([glist([f"({gq(x)}, {gq(y)})" for x, y in fl]) for fl in st["fixed"]]) + ")"
+        return f"(OFixed {gfixed(st['fixed'])})"
     if h[0] == "mbr":
         return f"(OBool {gbool(st['val'])})"
     if h[0] in ("maxdepth", "numrect"):
